@@ -55,8 +55,8 @@ type Case struct {
 	NfExpiry int64      `json:"nfexpiry"` // ns: cache.WithNotFoundExpiry(nfexpiry), any sign, when NfOpt
 	ExpOpt   *bool      `json:"expopt"`   // the option is passed (absent: iff expiry > 0)
 	NfOpt    *bool      `json:"nfopt"`
-	PkKind   string     `json:"pkkind"`   // int | str
-	Rows     [][]string `json:"rows"`     // initial database rows [pk,u,v] (texts)
+	PkKind   string     `json:"pkkind"` // int | str
+	Rows     [][]string `json:"rows"`   // initial database rows [pk,u,v] (texts)
 	Ops      [][]any    `json:"ops"`
 	Keys     []string   `json:"keys"`    // cache keys whose node is to be reported
 	Hole     string     `json:"hole"`    // cache.notFoundPlaceholder as extracted from the sources
@@ -70,6 +70,9 @@ type Case struct {
 	Readers  int        `json:"readers"` // kind conc*
 	Present  bool       `json:"present"` // kind conc*
 	Pk       string     `json:"pk"`      // kind conc*: primary key of the row
+	Ctx      string     `json:"ctx"`     // kind conc*: "" (every reader's context lives) | leadercancel | leaderdeadline
+	//                                      (the LEADER's context dies while its query is in progress, the followers' live) |
+	//                                      followercancel | followerdeadline (the reverse)
 }
 
 type Options2 struct {
@@ -81,10 +84,10 @@ type Options2 struct {
 
 type Entry struct {
 	K    string `json:"k"`
-	T    string `json:"t"`  // row | pk | hole | raw
-	Pk   string `json:"pk"` // t = pk: the primary key stored (text)
-	A    string `json:"a"`  // t = row: u
-	B    string `json:"b"`  // t = row: v
+	T    string `json:"t"`   // row | pk | hole | raw
+	Pk   string `json:"pk"`  // t = pk: the primary key stored (text)
+	A    string `json:"a"`   // t = row: u
+	B    string `json:"b"`   // t = row: v
 	TTL  int64  `json:"ttl"` // ms; 0 = persistent
 	Node int    `json:"node"`
 }
@@ -116,6 +119,8 @@ type ConcObs struct {
 	Results []string `json:"results"` // per reader: "row:pk:u:v" | "nf" | "dberr" | "cerr"
 	MaxPar  int      `json:"maxpar"`  // max number of queries in flight at once
 	Seen    []string `json:"seen"`
+	Leader  int      `json:"leader"` // the reader whose query ran first
+	Dump    []Entry  `json:"dump"`   // store contents when every reader has returned
 }
 
 // a database row; Pk is the text of the primary key (decimal for kind int)
@@ -203,21 +208,52 @@ func valueOf(r Row) any {
 }
 
 type fakeDB struct {
-	mid   int // >= 0: the next query first takes this cache node down (mid-operation outage)
-	mu    sync.Mutex
-	rows  map[string]Row
-	fault bool
-	errv  error // what a failing query / exec returns
-	nf    error // what "no row" is reported as
-	qi    int
-	qp    int
-	seen  []string
-	gate  chan struct{} // conc: queries park here
-	inq   int32
-	maxq  int32
+	mid    int // >= 0: the next query first takes this cache node down (mid-operation outage)
+	mu     sync.Mutex
+	rows   map[string]Row
+	fault  bool
+	errv   error // what a failing query / exec returns
+	nf     error // what "no row" is reported as
+	qi     int
+	qp     int
+	seen   []string
+	gate   chan struct{} // conc: queries park here
+	gate2  chan struct{} // conc: queries that start after a context was killed park here
+	phase2 bool
+	leader int // conc: the reader whose query entered first (-1: none yet)
+	inq    int32
+	maxq   int32
 }
 
-func (d *fakeDB) enter() {
+// a context the monitor ends by hand, with the error it chooses (cancellation or deadline)
+type manualCtx struct {
+	done chan struct{}
+	mu   sync.Mutex
+	err  error
+}
+
+func newManualCtx() *manualCtx { return &manualCtx{done: make(chan struct{})} }
+
+func (c *manualCtx) Deadline() (time.Time, bool) { return time.Time{}, false }
+func (c *manualCtx) Done() <-chan struct{}       { return c.done }
+func (c *manualCtx) Value(any) any               { return nil }
+func (c *manualCtx) Err() error {
+	c.mu.Lock()
+	defer c.mu.Unlock()
+	return c.err
+}
+func (c *manualCtx) kill(e error) {
+	c.mu.Lock()
+	defer c.mu.Unlock()
+	if c.err == nil {
+		c.err = e
+		close(c.done)
+	}
+}
+
+// enter: a database query starts.  It parks on the gate (conc kinds) like a slow query that
+// honours its context: it ends with ctx.Err() when the context of the reader that runs it dies.
+func (d *fakeDB) enter(ctx context.Context, id int) error {
 	if d.mid >= 0 {
 		servers[d.mid].SetError("ERR verif outage")
 		faulted[d.mid] = true
@@ -230,19 +266,39 @@ func (d *fakeDB) enter() {
 			break
 		}
 	}
-	if d.gate != nil {
-		<-d.gate
+	d.mu.Lock()
+	if d.leader < 0 {
+		d.leader = id
 	}
+	g := d.gate
+	if d.phase2 {
+		g = d.gate2
+	}
+	d.mu.Unlock()
+	if g != nil {
+		select {
+		case <-g:
+		case <-ctx.Done():
+			return ctx.Err()
+		}
+	}
+	return nil
 }
 
 func (d *fakeDB) leave() { atomic.AddInt32(&d.inq, -1) }
 
 func (d *fakeDB) byPrimary(pk string, known bool, v any) error {
+	return d.byPrimaryC(context.Background(), -1, pk, known, v)
+}
+
+func (d *fakeDB) byPrimaryC(ctx context.Context, id int, pk string, known bool, v any) error {
 	d.mu.Lock()
 	d.qp++
 	d.mu.Unlock()
-	d.enter()
 	defer d.leave()
+	if err := d.enter(ctx, id); err != nil {
+		return err
+	}
 	d.mu.Lock()
 	defer d.mu.Unlock()
 	if d.fault {
@@ -256,11 +312,17 @@ func (d *fakeDB) byPrimary(pk string, known bool, v any) error {
 }
 
 func (d *fakeDB) byIndex(u int64, v any) (any, error) {
+	return d.byIndexC(context.Background(), -1, u, v)
+}
+
+func (d *fakeDB) byIndexC(ctx context.Context, id int, u int64, v any) (any, error) {
 	d.mu.Lock()
 	d.qi++
 	d.mu.Unlock()
-	d.enter()
 	defer d.leave()
+	if err := d.enter(ctx, id); err != nil {
+		return nil, err
+	}
 	d.mu.Lock()
 	defer d.mu.Unlock()
 	if d.fault {
@@ -643,7 +705,7 @@ func runSeq(c Case) Out {
 	out := Out{ID: c.ID}
 	setup(c)
 	reset()
-	db := &fakeDB{rows: map[string]Row{}, mid: -1, errv: errDB, nf: sqlx.ErrNotFound}
+	db := &fakeDB{rows: map[string]Row{}, mid: -1, leader: -1, errv: errDB, nf: sqlx.ErrNotFound}
 	if c.NfWrap {
 		db.nf = errNotFoundWrapped
 	}
@@ -907,13 +969,18 @@ func cacheOp(ch cache.Cache, db *fakeDB, kind string, op []any, row any) error {
 }
 
 // load suppression: `readers` goroutines read the same uncached key (kind conc: QueryRow on
-// the primary key; kind concqri: QueryRowIndex on the index key); the database query parks on
-// a gate until every other reader is parked inside the barrier.
+// the primary key; kind concqri: QueryRowIndex on the index key), each under ITS OWN context; the
+// database query parks on a gate until every other reader is parked inside the barrier.
+// Then, depending on c.Ctx, the leader's context (the reader whose query is in progress) or the
+// followers' contexts are ended - cancelled or past their deadline - and the monitor watches
+// what the others do: a query that starts from then on parks on a second gate until nothing
+// moves any more, so that queries of one key that CAN overlap DO overlap and are counted.
 func runConc(c Case) Out {
 	out := Out{ID: c.ID}
 	setup(c)
 	reset()
-	db := &fakeDB{rows: map[string]Row{}, gate: make(chan struct{}), mid: -1, errv: errDB, nf: sqlx.ErrNotFound}
+	db := &fakeDB{rows: map[string]Row{}, gate: make(chan struct{}), gate2: make(chan struct{}), mid: -1, leader: -1,
+		errv: errDB, nf: sqlx.ErrNotFound}
 	pk := c.Pk
 	if pk == "" {
 		pk = "1"
@@ -922,36 +989,44 @@ func runConc(c Case) Out {
 		db.rows[pk] = Row{pk, 7, 42}
 	}
 	cc := newConn(c)
-	ctx := context.Background()
 	res := make([]string, c.Readers)
+	ctxs := make([]*manualCtx, c.Readers)
+	var finished int32
 	var wg sync.WaitGroup
 	for i := 0; i < c.Readers; i++ {
+		ctxs[i] = newManualCtx()
 		wg.Add(1)
 		go func(i int) {
 			defer wg.Done()
+			defer atomic.AddInt32(&finished, 1)
 			row := newTarget()
 			var err error
 			if c.Kind == "concqri" {
-				err = cc.QueryRowIndexCtx(ctx, row, "u7", db.keyer,
-					func(ctx context.Context, conn sqlx.SqlConn, v any) (any, error) { return db.byIndex(7, v) },
+				err = cc.QueryRowIndexCtx(ctxs[i], row, "u7", db.keyer,
+					func(ctx context.Context, conn sqlx.SqlConn, v any) (any, error) { return db.byIndexC(ctx, i, 7, v) },
 					func(ctx context.Context, conn sqlx.SqlConn, v, primary any) error {
 						text, known := db.primary(primary)
-						return db.byPrimary(text, known, v)
+						return db.byPrimaryC(ctx, i, text, known, v)
 					})
 			} else {
-				err = cc.QueryRowCtx(ctx, row, "p"+pk, func(ctx context.Context, conn sqlx.SqlConn, v any) error {
-					return db.byPrimary(pk, true, v)
+				err = cc.QueryRowCtx(ctxs[i], row, "p"+pk, func(ctx context.Context, conn sqlx.SqlConn, v any) error {
+					return db.byPrimaryC(ctx, i, pk, true, v)
 				})
 			}
-			if err == nil {
+			switch {
+			case err == nil:
 				r := extract(row)
 				res[i] = fmt.Sprintf("row:%s:%d:%d", r.Pk, r.U, r.V)
-			} else {
+			case errors.Is(err, context.Canceled):
+				res[i] = "canceled"
+			case errors.Is(err, context.DeadlineExceeded):
+				res[i] = "deadline"
+			default:
 				res[i] = classify(err, nil)
 			}
 		}(i)
 	}
-	// wait until one reader is inside the query and the others wait in the barrier
+	// readers parked inside a database query / waiting in the barrier
 	parked := func() (inGate, inBarrier int) {
 		for _, g := range hx.Stacks() {
 			if !strings.Contains(g, "main.runConc.func") {
@@ -965,6 +1040,7 @@ func runConc(c Case) Out {
 		}
 		return
 	}
+	// wait until one reader is inside the query and the others wait in the barrier
 	deadline := time.Now().Add(3 * time.Second)
 	stable := 0
 	var g, b int
@@ -980,10 +1056,42 @@ func runConc(c Case) Out {
 		}
 		time.Sleep(200 * time.Microsecond)
 	}
+	db.mu.Lock()
+	leader := db.leader
+	db.phase2 = true
+	db.mu.Unlock()
+	if c.Ctx != "" && leader >= 0 {
+		cause := context.Canceled
+		if strings.HasSuffix(c.Ctx, "deadline") {
+			cause = context.DeadlineExceeded
+		}
+		for i := range ctxs {
+			if (strings.HasPrefix(c.Ctx, "leader") && i == leader) || (strings.HasPrefix(c.Ctx, "follower") && i != leader) {
+				ctxs[i].kill(cause)
+			}
+		}
+		// let whatever that sets off happen: until every reader that has not returned is parked
+		// (in a query of its own, on the second gate, or still behind the first query)
+		deadline = time.Now().Add(3 * time.Second)
+		stable = 0
+		for time.Now().Before(deadline) {
+			g2, b2 := parked()
+			if g2+b2 == c.Readers-int(atomic.LoadInt32(&finished)) {
+				stable++
+				if stable >= 3 {
+					break
+				}
+			} else {
+				stable = 0
+			}
+			time.Sleep(300 * time.Microsecond)
+		}
+	}
 	close(db.gate)
+	close(db.gate2)
 	wg.Wait()
 	out.Conc = &ConcObs{Queries: db.qp + db.qi, QI: db.qi, QP: db.qp, Blocked: b, Results: res,
-		MaxPar: int(db.maxq), Seen: db.seen}
+		MaxPar: int(db.maxq), Seen: db.seen, Leader: leader, Dump: dump(c.Nodes)}
 	return out
 }
 
